@@ -607,14 +607,19 @@ func (c *ExecCtx) execSwitch(st *State, x *ast.SwitchStmt, label string) []*Stat
 	c.loops = append(c.loops, lc)
 	var outs []*State
 	rest := st // state in which no earlier case matched
-	var defaultClause *ast.CaseClause
-	for _, cl := range x.Body.List {
+	clauses := x.Body.List
+	// entry states per clause (condition matched, or fallen through)
+	entry := make([][]*State, len(clauses))
+	defaultIdx := -1
+	for i, cl := range clauses {
 		cc := cl.(*ast.CaseClause)
 		if cc.List == nil {
-			defaultClause = cc
+			defaultIdx = i
 			continue
 		}
-		// condition: any of the expressions matches
+		if rest.dead {
+			continue
+		}
 		var conds []*Term
 		cs := rest.fork()
 		for _, e := range cc.List {
@@ -630,18 +635,35 @@ func (c *ExecCtx) execSwitch(st *State, x *ast.SwitchStmt, label string) []*Stat
 		cs.assumeT(cond)
 		next.assumeT(Not(cond))
 		if !cs.dead {
-			outs = append(outs, c.execBlock([]*State{cs}, cc.Body)...)
+			entry[i] = append(entry[i], cs)
 		}
 		rest = next
-		if rest.dead {
-			break
-		}
 	}
 	if !rest.dead {
-		if defaultClause != nil {
-			outs = append(outs, c.execBlock([]*State{rest}, defaultClause.Body)...)
+		if defaultIdx >= 0 {
+			entry[defaultIdx] = append(entry[defaultIdx], rest)
 		} else {
 			outs = append(outs, rest)
+		}
+	}
+	for i, cl := range clauses {
+		cc := cl.(*ast.CaseClause)
+		if len(entry[i]) == 0 {
+			continue
+		}
+		body := cc.Body
+		falls := false
+		if n := len(body); n > 0 {
+			if bs, ok := body[n-1].(*ast.BranchStmt); ok && bs.Tok == token.FALLTHROUGH {
+				falls = true
+				body = body[:n-1]
+			}
+		}
+		res := c.execBlock(entry[i], body)
+		if falls && i+1 < len(clauses) {
+			entry[i+1] = append(entry[i+1], res...)
+		} else {
+			outs = append(outs, res...)
 		}
 	}
 	c.loops = c.loops[:len(c.loops)-1]
@@ -1190,12 +1212,22 @@ func (c *ExecCtx) execRange(st *State, x *ast.RangeStmt, label string) []*State 
 	case *types.Map:
 		m := c.eval(st, x.X)
 		hn, vn, _, ks, vs := c.mapHeaps(t)
+		// ghost set of keys already visited: every key is visited at most once
+		vk := "$visited" + lkey
+		st.ghost[vk] = App("(as const "+ArraySort(ks, SBool)+")", ArraySort(ks, SBool), False)
+		gm := types.NewMap(t.Key(), types.Typ[types.Bool])
+		ghostMapTypes[gm] = true
+		u.ghostTypes[vk] = gm
+		binds := map[string]Val{"ʃvisited": {Sym(vk, "GHOSTKEY"), gm}}
+		// the map as it was when the loop started (Go: entries added during
+		// iteration may or may not be visited; entries removed are not)
 		head := func(s *State) *Term { return u.fresh("more", SBool) }
 		body2 := func(s *State) []*State {
 			k := u.fresh("mk", ks)
 			H := u.heapGet(s, hn, ArraySort(SInt, ArraySort(ks, SBool)))
-			s.assumeT(And(Ne(m.T, IntLit(0)), Select(Select(H, m.T), k)))
+			s.assumeT(And(Ne(m.T, IntLit(0)), Select(Select(H, m.T), k), Not(Select(s.ghost[vk], k))))
 			c.typeFacts(s, k, t.Key())
+			u.ghostSet(s, vk, Store(s.ghost[vk], k, True))
 			if keyObj != nil {
 				u.varSet(s, keyObj, k)
 			}
@@ -1206,7 +1238,8 @@ func (c *ExecCtx) execRange(st *State, x *ast.RangeStmt, label string) []*State 
 			}
 			return body(s)
 		}
-		return c.runLoop(st, x, label, ls, lkey, nil, head, body2, nil, nil)
+		outs := c.runLoop(st, x, label, ls, lkey, nil, head, body2, nil, binds)
+		return outs
 	case *types.Chan:
 		ch := c.eval(st, x.X)
 		head := func(s *State) *Term { return u.fresh("chopen", SBool) }
